@@ -1,6 +1,7 @@
 import re
 import functools
-from typing import Union
+from decimal import Decimal
+from typing import Any, Union
 
 from flamapy.core.models.ast import ASTOperation
 from flamapy.core.transformations import ModelToText
@@ -101,14 +102,41 @@ class UVLWriter(ModelToText):
         for attribute in feature.get_attributes():
             attribute_str = safename(attribute.name)
             if attribute.default_value is not None:
-                if isinstance(attribute.default_value, str):
-                    attribute_str += f" '{attribute.default_value}'"
-                elif isinstance(attribute.default_value, bool):
-                    attribute_str += f" {str(attribute.default_value).lower()}"
-                else:
-                    attribute_str += f" {attribute.default_value}"
+                attribute_str += " " + cls.serialize_value(attribute.default_value)
             attributes.append(attribute_str)
         return f'{{{", ".join(attributes)}}}' if attributes else ""
+
+    @classmethod
+    def serialize_value(cls, value: Any) -> str:
+        """UVL syntax of an attribute value (the inverse of UVLReader.process_value)."""
+        if isinstance(value, bool):
+            result = str(value).lower()
+        elif isinstance(value, str):
+            result = f"'{value}'"
+        elif isinstance(value, float):
+            result = repr(value)
+            if 'e' in result or 'E' in result:  # UVL floats have no exponent
+                result = format(Decimal(result), 'f')
+            if '.' not in result:
+                result += '.0'
+        elif isinstance(value, (list, tuple)):
+            items = [cls.serialize_value(val) for val in value]
+            if len(value) == 1 and isinstance(value[0], int) and not isinstance(value[0], bool):
+                # '[1]' alone is a cardinality token for the lexer
+                result = f"[ {items[0]} ]"
+            else:
+                result = "[" + ", ".join(items) + "]"
+        elif isinstance(value, dict):
+            items = []
+            for key, val in value.items():
+                item = safename(str(key))
+                if val is not None:
+                    item += " " + cls.serialize_value(val)
+                items.append(item)
+            result = "{" + ", ".join(items) + "}"
+        else:
+            result = str(value)
+        return result
 
     @staticmethod
     def serialize_relation(rel: Relation) -> str:
